@@ -5,6 +5,7 @@ package main
 // along one call chain (frames bind callee parameters to caller arguments).
 
 import (
+	"os"
 	"fmt"
 	"go/constant"
 	"go/token"
@@ -692,6 +693,18 @@ func (ts *Terms) loadAlloc(a *ssa.Alloc, fld *ssa.FieldAddr, fr *Frame, depth in
 				// value that callee stores into the field
 				if t := ts.calleeFilledField(a, fld.Field, fr, depth, at); t != nil {
 					return t
+				}
+				// … or by the options applied to it (for _, o := range opts { o(&d) })
+				if depth < 28 {
+					ts.cur = at
+					if st := ts.loadAlloc(a, nil, fr, depth+2); st != nil && st.Op == "struct" {
+						if os.Getenv("DEBUG_OPTS") != "" {
+							fmt.Fprintf(os.Stderr, "options struct for %s.%s: %s\n", a.Comment, name, trunc(st.String(), 400))
+						}
+						if f := simplifyField(st, name); !(f.Op == "field" && len(f.Args) == 1 && f.Args[0] == st) {
+							return f
+						}
+					}
 				}
 				// filled through its address by a call (Unmarshal(bz, &x)): name it by that call
 				for _, r := range *a.Referrers() {
